@@ -325,6 +325,23 @@ func bashProbeJudge(pr Probe) (bool, string, map[string]string) {
 		}
 	}
 	rr := RunBash(run, tr.Script, RunOpts{Stdin: pr.Stdin, Timeout: 5 * time.Second})
+	if rr.TimedOut {
+		// wall time is no verdict on a loaded machine: decide on logical steps in a fresh sandbox
+		verdict, r2 := DecideTimeout(tr.Script, 400000, RunOpts{Stdin: pr.Stdin}, func() string {
+			d := newSandbox()
+			for n, s := range pr.Files {
+				if !strings.HasSuffix(n, ".tsh") {
+					os.WriteFile(filepath.Join(d, n), []byte(s), 0o644)
+				}
+			}
+			return d
+		})
+		if verdict == "finished" {
+			rr = r2
+		} else if verdict == "inconclusive" {
+			return true, "", files // no verdict: the probe neither reproduces nor fails
+		}
+	}
 	files["observed.stdout"] = clip(rr.Stdout, 4000)
 	files["observed.stderr"] = rr.Stderr
 	if rr.TimedOut || rr.Capped {
